@@ -67,12 +67,30 @@ func genConcCase(rng *simrt.Rng, o *ConcOpts) *ConcCase {
 		}
 	}
 	nt := o.Tasks[0] + rng.Intn(o.Tasks[1]-o.Tasks[0]+1)
+	opsLo, opsHi := o.OpsPer[0], o.OpsPer[1]
+	if o.TinyP > 0 && rng.Intn(o.TinyP) == 0 {
+		// tiny programs: two or three tasks with one to three operations each on at most two keys -
+		// the schedule space of such a run is small enough for the seeded scheduler to reach
+		// windows of a few instructions (a status word read before a lock, a CAS after a load)
+		nt = 2 + rng.Intn(2)
+		opsLo, opsHi = 1, 3
+		if cfg.Keys > 2 {
+			cfg.Keys = 1 + rng.Intn(2)
+		}
+		if len(cc.Prefill) > 3 {
+			cc.Prefill = cc.Prefill[:rng.Intn(4)]
+		}
+		for i := range cc.Prefill {
+			cc.Prefill[i].K %= cfg.Keys
+		}
+		resize = 0
+	}
 	roundLen := 2 + rng.Intn(5)
 	rounds := 0
 	for t := 0; t < nt; t++ {
 		g := NewOpGen(rng, cfg, &prof)
 		g.nextID = 32 + (t+1)*100_000*32
-		n := o.OpsPer[0] + rng.Intn(o.OpsPer[1]-o.OpsPer[0]+1)
+		n := opsLo + rng.Intn(opsHi-opsLo+1)
 		var ops []Op
 		for i := 0; i < n; i++ {
 			op := g.Next(nil)
@@ -168,7 +186,57 @@ func genConcCase(rng *simrt.Rng, o *ConcOpts) *ConcCase {
 	if (o.SweepCheck || o.Duel) && rng.Intn(3) == 0 {
 		sweepDuel(rng, cc, pg)
 	}
+	if o.WakeDuel && rng.Intn(4) == 0 {
+		wakeDuel(rng, cc, pg)
+	}
 	return cc
+}
+
+// wakeDuel replaces the generated programs by a tiny "who schedules the maintenance" scenario
+// (C14): a caller that is not a writer asks for a drain - it read an expired entry, or its read
+// did not fit into the (single, 16-slot) read buffer - at the moment a writer publishes an event
+// and asks for a drain as well. Both go through the drain-status word and the eviction lock's
+// TryLock; whatever the interleaving, one of them has to leave the write scheduled.
+func wakeDuel(rng *simrt.Rng, cc *ConcCase, pg *OpGen) {
+	cfg := &cc.Cfg
+	cfg.Keys = 2 + rng.Intn(2)
+	cc.Prefill = nil
+	for k := 0; k < cfg.Keys; k++ {
+		cc.Prefill = append(cc.Prefill, Op{Kind: "set", K: k, V: pg.newVal()})
+	}
+	writer := func() Op {
+		k := rng.Intn(cfg.Keys + 1)
+		switch rng.Intn(5) {
+		case 0:
+			return Op{Kind: "invalidate", K: k}
+		case 1:
+			return Op{Kind: "compute", K: k, V: pg.newVal(), Comp: "write"}
+		}
+		return Op{Kind: "set", K: k, V: pg.newVal()}
+	}
+	var a []Op
+	if cfg.withExpiry() && cfg.ExpD > 0 && cfg.Expiry != "custom" && rng.Intn(2) == 0 {
+		// a read of an expired, not yet swept entry asks for a drain
+		a = []Op{{Kind: "advance", D: cfg.ExpD + int64(rng.Intn(3))}, {Kind: "get", K: 0}}
+		if rng.Intn(2) == 0 {
+			a = append(a, Op{Kind: "get", K: 1})
+		}
+	} else {
+		// more reads than the read buffer holds: the one that does not fit asks for a drain
+		cfg.StripedMax = 1
+		n := 15 + rng.Intn(6)
+		for i := 0; i < n; i++ {
+			a = append(a, Op{Kind: "get", K: rng.Intn(cfg.Keys)})
+		}
+	}
+	b := []Op{writer()}
+	if rng.Intn(3) == 0 {
+		b = append(b, writer())
+	}
+	cc.Tasks = [][]Op{a, b}
+	if rng.Intn(3) == 0 {
+		cc.Tasks = append(cc.Tasks, []Op{writer()})
+	}
 }
 
 // sweepDuel replaces the generated programs by a tiny scenario (C13's proviso "reads only ever
